@@ -162,12 +162,23 @@ func (s *Solver) Assert(t *Term) {
 // the answer is sat and want is non-empty, the values of those terms are returned
 // keyed by their printed form.
 func (s *Solver) Check(extra *Term, want []*Term) (Result, map[string]uint64) {
+	if extra == nil {
+		return s.CheckAll(nil, want)
+	}
+	return s.CheckAll([]*Term{extra}, want)
+}
+
+// CheckAll is Check with several extra assertions, asserted one by one (no conjunction
+// term is built, so that long fact lists stay linear in size).
+func (s *Solver) CheckAll(extras []*Term, want []*Term) (Result, map[string]uint64) {
 	start := time.Now()
 	defer func() { s.Time += time.Since(start) }()
 	s.Queries++
-	if extra != nil {
+	if len(extras) > 0 {
 		s.Push()
-		s.Assert(extra)
+		for _, e := range extras {
+			s.Assert(e)
+		}
 	}
 	for _, w := range want {
 		s.declare(w)
@@ -225,7 +236,7 @@ func (s *Solver) Check(extra *Term, want []*Term) (Result, map[string]uint64) {
 			}
 		}
 	}
-	if extra != nil {
+	if len(extras) > 0 {
 		s.Pop(1)
 	}
 	return res, model
